@@ -8,10 +8,6 @@ Open Scope Z_scope.
    These are the facts about the regenerated source that the theorems depend on; each is closed by
    computation, so a change of the source breaks it here. *)
 
-Lemma next_dir_spec z : flow_next_dir z = (z >=? 0).
-Proof. reflexivity. Qed.
-Lemma for_dir_spec z : flow_for_dir z = (z >=? 0).
-Proof. reflexivity. Qed.
 Lemma on_range : flow_on_lo = 0 /\ flow_on_hi = 255.
 Proof. split; reflexivity. Qed.
 Lemma error_range : flow_error_lo = 1 /\ flow_error_hi = 255.
@@ -295,299 +291,6 @@ Proof.
   rewrite andb_false_r. reflexivity.
 Qed.
 
-(* ------------------------------------------------------------------ FOR: trip count *)
-
-Lemma setv_setv e v x y : setv (setv e v x) v y = setv e v y.
-Proof. revert e; induction v as [|v IH]; intros [|a e]; simpl; auto; rewrite IH; reflexivity. Qed.
-
-(* the counter passes the end exactly after floor((b-a)/s)+1 steps *)
-Lemma passed_up a b s k : s > 0 -> (a + k * s > b <-> k > (b - a) / s).
-Proof.
-  intros Hs. pose proof (Z.div_mod (b - a) s ltac:(lia)) as Hdm.
-  pose proof (Z.mod_pos_bound (b - a) s ltac:(lia)) as Hm. split; intros H; nia.
-Qed.
-Lemma passed_down a b s k : s < 0 -> (b > a + k * s <-> k > (b - a) / s).
-Proof.
-  intros Hs. pose proof (Z.div_mod (b - a) s ltac:(lia)) as Hdm.
-  pose proof (Z.mod_neg_bound (b - a) s ltac:(lia)) as Hm. split; intros H; nia.
-Qed.
-
-Definition trip_count (a b s : Z) : Z := Z.max 0 ((b - a) / s + 1).
-Definition for_values (a s : Z) (from n : nat) : list Z :=
-  map (fun k => a + Z.of_nat k * s) (seq from n).
-
-Lemma in16_between x y z : in16 x = true -> in16 z = true -> (x <= y <= z \/ z <= y <= x) -> in16 y = true.
-Proof. unfold in16. intros H1 H2 H. lia. Qed.
-
-Lemma exact24_of_in16 z : in16 z = true -> exact24 z = true.
-Proof. unfold in16, exact24. lia. Qed.
-
-Section ForLoop.
-Variables (code : list stmt) (i : nat) (v : var) (a b s : Z) (vs : list var).
-Hypothesis Hfor : nth_error code i = Some (SFor v (EConst a) (EConst b) (EConst s)).
-Hypothesis Hbody : nth_error code (S i) = Some (SPrint (EVar v)).
-Hypothesis Hnext : nth_error code (S (S i)) = Some (SNext vs).
-Hypothesis Hvs : vs = [] \/ vs = [v].
-Hypothesis Ha : in16 a = true.
-Hypothesis Hb : in16 b = true.
-Hypothesis Hs : in16 s = true.
-
-Let rec0 := {| f_var := v; f_stop := b; f_step := s; f_forpos := S i; f_nidx := S (S i); f_nk := 0 |}.
-
-Lemma for_scan : scan_next (skipn (S i) code) (S i) 0 = Some (S (S i), 0%nat).
-Proof.
-  rewrite (nth_error_skipn _ _ _ Hbody), (nth_error_skipn _ _ _ Hnext). simpl.
-  destruct Hvs as [-> | ->]; reflexivity.
-Qed.
-
-Lemma for_vars : vars_of_next code (S (S i)) = vs.
-Proof. unfold vars_of_next. rewrite Hnext. reflexivity. Qed.
-
-Lemma for_name_ok : match nth_error vs 0 with Some v' => Nat.eqb v' v | None => true end = true.
-Proof. destruct Hvs as [-> | ->]; simpl; auto. apply Nat.eqb_refl. Qed.
-
-Lemma for_names_rest : None :: map Some (skipn 1 vs) = [None (A:=var)].
-Proof. destruct Hvs as [-> | ->]; reflexivity. Qed.
-
-(* NEXT with the loop's record on top of the stack, counter value x *)
-Lemma next_iterate st x (nm : option var) :
-  fors st = rec0 :: tl (fors st) -> getv (env (ds st)) v = x -> (nm = None \/ nm = Some v) ->
-  in16 (x + s) = true ->
-  iterate st (S (S i)) 0 nm =
-    if (if s >=? 0 then x + s >? b else b >? x + s)
-    then IEnded (set_fors (set_var (set_fors st (rec0 :: tl (fors st))) v (x + s)) (tl (fors st)))
-    else ILoop (set_pc (set_var (set_fors st (rec0 :: tl (fors st))) v (x + s)) (S i)).
-Proof.
-  intros Hf Hx Hnm H16. unfold iterate. rewrite Hf. simpl find_for.
-  rewrite !Nat.eqb_refl. simpl andb. cbv iota beta.
-  assert (Hok : match nm with None => true | Some v0 => Nat.eqb v0 (f_var rec0) end = true).
-  { destruct Hnm as [-> | ->]; simpl; auto. apply Nat.eqb_refl. }
-  rewrite Hok. simpl negb. cbv iota. simpl f_var. simpl f_step. simpl f_stop. simpl f_forpos.
-  rewrite Hx, H16. simpl negb. cbv iota.
-  rewrite next_dir_spec.
-  assert (Hsg : (Z.sgn s >=? 0) = (s >=? 0)) by (destruct s; reflexivity).
-  rewrite Hsg. reflexivity.
-Qed.
-
-
-Definition body_state (st0 : state) (x : Z) : state :=
-  set_pc (set_fors (set_var st0 v x) (rec0 :: fors st0)) (S i).
-Definition exit_state (st0 : state) (x : Z) : state :=
-  set_pc (set_var st0 v x) (S (S (S i))).
-
-Lemma next_names_cases : next_names vs = [None] \/ next_names vs = [Some v].
-Proof. destruct Hvs as [-> | ->]; [left | right]; reflexivity. Qed.
-
-(* one pass: PRINT the counter, NEXT *)
-Lemma body_pass st0 x : in16 (x + s) = true ->
-  steps code 2 (body_state st0 x) =
-    Some ([x], if (if s >=? 0 then x + s >? b else b >? x + s)
-               then exit_state st0 (x + s) else body_state st0 (x + s)).
-Proof.
-  intros H16.
-  destruct st0 as [p0 fs0 ws0 gs0 [e0 er0 el0 oe0 h0 ra0 su0]].
-  set (st1 := body_state _ x).
-  assert (H1 : step code st1 = Go (set_pc st1 (S (S i))) [x]).
-  { rewrite (step_at code st1 _ Hbody). subst st1.
-    cbn [pc body_state set_pc set_fors set_var set_ds ds d_set_env env eval].
-    rewrite getv_setv_same. reflexivity. }
-  unfold steps. rewrite H1.
-  set (st2 := set_pc st1 (S (S i))).
-  rewrite (step_at code st2 _ Hnext). subst st2 st1.
-  cbn [pc body_state set_pc set_fors set_var set_ds ds d_set_env env fors whiles gosubs].
-  assert (Hnv : forall nm, nm = None \/ nm = Some v ->
-    next_vars {| pc := S (S i); fors := rec0 :: fs0; whiles := ws0; gosubs := gs0;
-                 ds := {| env := setv e0 v x; err := er0; erl := el0; onerr := oe0; handling := h0;
-                          resume_at := ra0; susp := su0 |} |} (S (S i)) 0 [nm] =
-    if (if s >=? 0 then x + s >? b else b >? x + s)
-    then IEnded {| pc := S (S i); fors := fs0; whiles := ws0; gosubs := gs0;
-                 ds := {| env := setv e0 v (x + s); err := er0; erl := el0; onerr := oe0; handling := h0;
-                          resume_at := ra0; susp := su0 |} |}
-    else ILoop {| pc := S i; fors := rec0 :: fs0; whiles := ws0; gosubs := gs0;
-                 ds := {| env := setv e0 v (x + s); err := er0; erl := el0; onerr := oe0; handling := h0;
-                          resume_at := ra0; susp := su0 |} |}).
-  { intros nm Hnm. cbn [next_vars].
-    rewrite (next_iterate _ x nm); cbn [fors tl ds env]; auto using getv_setv_same.
-    unfold set_fors, set_var, set_ds, set_pc, d_set_env; simpl.
-    rewrite setv_setv.
-    destruct (if s >=? 0 then x + s >? b else b >? x + s); reflexivity. }
-  destruct next_names_cases as [-> | ->]; rewrite Hnv by auto;
-    destruct (if s >=? 0 then x + s >? b else b >? x + s);
-    cbn [exit_state body_state set_fors set_var set_ds set_pc ds d_set_env env err erl onerr handling resume_at
-         susp pc fors whiles gosubs app]; reflexivity.
-Qed.
-
-
-Definition passed (x : Z) : bool := if s >=? 0 then x >? b else b >? x.
-
-Lemma body_pass' st0 x : in16 (x + s) = true ->
-  steps code 2 (body_state st0 x) =
-    Some ([x], if passed (x + s) then exit_state st0 (x + s) else body_state st0 (x + s)).
-Proof. exact (body_pass st0 x). Qed.
-
-Lemma for_values_cons from n : for_values a s from (S n) = (a + Z.of_nat from * s) :: for_values a s (S from) n.
-Proof. reflexivity. Qed.
-
-(* r more passes starting with counter a + k s *)
-Lemma loop_run st0 : forall r k,
-  (forall m, (k < m <= k + S r)%nat -> in16 (a + Z.of_nat m * s) = true) ->
-  (forall m, (k < m < k + S r)%nat -> passed (a + Z.of_nat m * s) = false) ->
-  passed (a + Z.of_nat (k + S r) * s) = true ->
-  steps code (2 * S r) (body_state st0 (a + Z.of_nat k * s)) =
-    Some (for_values a s k (S r), exit_state st0 (a + Z.of_nat (k + S r) * s)).
-Proof.
-  induction r as [|r IH]; intros k H16 Hnp Hp.
-  - assert (E : a + Z.of_nat k * s + s = a + Z.of_nat (k + 1) * s)
-      by (rewrite Nat2Z.inj_add; simpl Z.of_nat; ring).
-    change (2 * 1)%nat with 2%nat. rewrite body_pass'.
-    + rewrite E, Hp. reflexivity.
-    + rewrite E. apply H16. lia.
-  - assert (E : a + Z.of_nat k * s + s = a + Z.of_nat (S k) * s)
-      by (rewrite Nat2Z.inj_succ; ring).
-    replace (2 * S (S r))%nat with (2 + 2 * S r)%nat by lia.
-    rewrite for_values_cons.
-    eapply (steps_app code 2 (2 * S r) _ [a + Z.of_nat k * s]).
-    + rewrite body_pass'.
-      * rewrite E. rewrite Hnp by lia. reflexivity.
-      * rewrite E. apply H16. lia.
-    + replace (k + S (S r))%nat with (S k + S r)%nat by lia.
-      apply IH.
-      * intros m Hm. apply H16. lia.
-      * intros m Hm. apply Hnp. lia.
-      * replace (S k + S r)%nat with (k + S (S r))%nat by lia. exact Hp.
-Qed.
-
-(* the FOR statement itself *)
-Lemma for_enter st : pc st = i ->
-  (if s >=? 0 then a >? b else b >? a) = false ->
-  step code st = Go (body_state st a) [].
-Proof.
-  intros Hpc Hne. rewrite (step_at code st (SFor v (EConst a) (EConst b) (EConst s))) by (rewrite Hpc; exact Hfor).
-  cbn [eval]. rewrite !exact24_of_in16 by assumption.
-  unfold with_int, with_val. rewrite Ha, Hb, Hs. rewrite Hpc.
-  rewrite for_scan, for_vars, for_name_ok. cbn [negb].
-  rewrite for_dir_spec.
-  assert (Hsg : (Z.sgn s >=? 0) = (s >=? 0)) by (destruct s; reflexivity).
-  rewrite Hsg, Hne. reflexivity.
-Qed.
-
-Lemma for_skip st : pc st = i ->
-  (if s >=? 0 then a >? b else b >? a) = true ->
-  in16 (a + s) = true ->
-  step code st = Go (exit_state st (a + s)) [].
-Proof.
-  intros Hpc Hemp H16.
-  rewrite (step_at code st (SFor v (EConst a) (EConst b) (EConst s))) by (rewrite Hpc; exact Hfor).
-  cbn [eval]. rewrite !exact24_of_in16 by assumption.
-  unfold with_int, with_val. rewrite Ha, Hb, Hs. rewrite Hpc.
-  rewrite for_scan, for_vars, for_name_ok. cbn [negb].
-  rewrite for_dir_spec.
-  assert (Hsg : (Z.sgn s >=? 0) = (s >=? 0)) by (destruct s; reflexivity).
-  rewrite Hsg, Hemp. rewrite for_names_rest.
-  cbn [next_vars].
-  match goal with |- context [iterate ?x _ _ _] => set (st2 := x) end.
-  assert (F : fors st2 = rec0 :: tl (fors st2)) by (destruct st; reflexivity).
-  assert (G : getv (env (ds st2)) v = a).
-  { destruct st as [p0 fs0 ws0 gs0 [e0 er0 el0 oe0 h0 ra0 su0]]. simpl. apply getv_setv_same. }
-  rewrite (next_iterate st2 a None F G (or_introl eq_refl) H16).
-  assert (Hp : (if s >=? 0 then a + s >? b else b >? a + s) = true).
-  { destruct (s >=? 0) eqn:E; lia. }
-  rewrite Hp. subst st2. destruct st as [p0 fs0 ws0 gs0 [e0 er0 el0 oe0 h0 ra0 su0]].
-  unfold exit_state, set_fors, set_var, set_ds, set_pc, d_set_env; simpl.
-  rewrite setv_setv. reflexivity.
-Qed.
-
-
-(* FOR v = a TO b STEP s : PRINT v : NEXT  with s <> 0: the body runs for a, a+s, ... exactly
-   max 0 (floor((b-a)/s) + 1) times, and the loop is left with the first value past the end *)
-Theorem for_trip_count st : s <> 0 -> pc st = i ->
-  let n := trip_count a b s in
-  in16 (a + Z.max n 1 * s) = true ->
-  steps code (1 + 2 * Z.to_nat n) st =
-    Some (for_values a s 0 (Z.to_nat n), exit_state st (a + Z.max n 1 * s)).
-Proof.
-  intros Hs0 Hpc n H16. unfold in16 in Ha, Hb, Hs.
-  assert (Hq : s > 0 -> (a > b <-> 0 > (b - a) / s)).
-  { intros Hp. pose proof (passed_up a b s 0 Hp). lia. }
-  assert (Hq' : s < 0 -> (b > a <-> 0 > (b - a) / s)).
-  { intros Hp. pose proof (passed_down a b s 0 Hp). lia. }
-  destruct (Z_lt_le_dec ((b - a) / s) 0) as [Hneg | Hnn].
-  - (* start already past the end *)
-    assert (Hn : n = 0) by (unfold n, trip_count; lia).
-    rewrite Hn in *. change (Z.to_nat 0) with 0%nat. simpl Nat.mul. simpl Nat.add.
-    replace (a + Z.max 0 1 * s) with (a + s) in * by lia.
-    apply steps_one. apply for_skip; auto.
-    destruct (s >=? 0) eqn:E; [assert (s > 0) by lia | assert (s < 0) by lia]; lia.
-  - assert (Hn : n = (b - a) / s + 1) by (unfold n, trip_count; lia).
-    assert (Hn1 : Z.max n 1 = n) by lia. rewrite Hn1 in *.
-    destruct (Z.to_nat n) as [|r] eqn:Er; [lia|].
-    assert (HnN : n = Z.of_nat (S r)) by lia.
-    replace (1 + 2 * S r)%nat with (1 + 2 * S r)%nat by reflexivity.
-    eapply (steps_app code 1 (2 * S r) st [] (body_state st a)).
-    + apply steps_one. apply for_enter; auto.
-      destruct (s >=? 0) eqn:E; [assert (s > 0) by lia | assert (s < 0) by lia]; lia.
-    + pose proof (loop_run st r 0) as L. change (Z.of_nat 0) with 0 in L.
-      replace (a + 0 * s) with a in L by ring. change (0 + S r)%nat with (S r) in L.
-      rewrite HnN. apply L.
-      * intros m Hm. apply (in16_between a _ (a + n * s)).
-        -- unfold in16; lia.
-        -- exact H16.
-        -- destruct (Z_lt_le_dec s 0); [right | left]; nia.
-      * intros m Hm. unfold passed.
-        destruct (s >=? 0) eqn:E.
-        -- assert (Hsp : s > 0) by lia. pose proof (passed_up a b s (Z.of_nat m) Hsp). lia.
-        -- assert (Hsn : s < 0) by lia. pose proof (passed_down a b s (Z.of_nat m) Hsn). lia.
-      * unfold passed.
-        destruct (s >=? 0) eqn:E.
-        -- assert (Hsp : s > 0) by lia. pose proof (passed_up a b s (Z.of_nat (S r)) Hsp) as [_ H2].
-           assert (X : Z.of_nat (S r) > (b - a) / s) by lia. specialize (H2 X).
-           apply Z.gtb_lt. lia.
-        -- assert (Hsn : s < 0) by lia. pose proof (passed_down a b s (Z.of_nat (S r)) Hsn) as [_ H2].
-           assert (X : Z.of_nat (S r) > (b - a) / s) by lia. specialize (H2 X).
-           apply Z.gtb_lt. lia.
-Qed.
-
-(* STEP 0 counts as a non-negative direction: nothing is executed when the start is past the end ... *)
-Theorem for_step0_skip st : s = 0 -> pc st = i -> a > b ->
-  steps code 1 st = Some ([], exit_state st a).
-Proof.
-  intros H0 Hpc Hab. apply steps_one.
-  assert (E : a + s = a) by lia.
-  pose proof (for_skip st Hpc) as H. rewrite E in H.
-  apply H; [rewrite H0; simpl; lia | exact Ha].
-Qed.
-
-(* ... and otherwise the counter never passes the end: the body is repeated for ever *)
-Theorem for_step0_forever st : s = 0 -> pc st = i -> a <= b ->
-  forall m, steps code (1 + 2 * m) st = Some (repeat a m, body_state st a).
-Proof.
-  intros H0 Hpc Hab.
-  assert (Hent : steps code 1 st = Some ([], body_state st a)).
-  { apply steps_one. apply for_enter; auto. rewrite H0. simpl. lia. }
-  induction m as [|m IH].
-  - exact Hent.
-  - replace (1 + 2 * S m)%nat with ((1 + 2 * m) + 2)%nat by lia.
-    replace (repeat a (S m)) with (repeat a m ++ [a]) by (rewrite <- repeat_cons; reflexivity).
-    eapply steps_app; [exact IH|].
-    rewrite body_pass' by (rewrite H0; replace (a + 0) with a by lia; exact Ha).
-    unfold passed. rewrite H0. replace (a + 0) with a by lia. simpl.
-    assert (E : (a >? b) = false) by lia. rewrite E. reflexivity.
-Qed.
-
-End ForLoop.
-
-(* steps that do not halt: every smaller fuel runs out *)
-Lemma steps_no_halt code n : forall st r fuel,
-  steps code n st = Some r -> (fuel <= n)%nat -> snd (run code fuel st) = OutOfFuel.
-Proof.
-  induction n as [|n IH]; intros st r fuel H Hf.
-  - assert (fuel = 0%nat) by lia. subst. reflexivity.
-  - destruct fuel as [|f]; [reflexivity|]. simpl in *.
-    destruct (step code st) as [st1 out|o]; [|discriminate].
-    destruct (steps code n st1) as [[t1 st2]|] eqn:E; [|discriminate].
-    specialize (IH st1 _ f E ltac:(lia)). destruct (run code f st1). simpl in *. exact IH.
-Qed.
-
 (* ------------------------------------------------------------------ GOSUB / RETURN / GOTO / ON *)
 
 Section StepFacts.
@@ -733,18 +436,3 @@ Qed.
 
 End StepFacts.
 
-(* FOR .. STEP 0 with start <= end: no fuel is enough *)
-Lemma for_step0_diverges code i v a b s vs :
-  nth_error code i = Some (SFor v (EConst a) (EConst b) (EConst s)) ->
-  nth_error code (S i) = Some (SPrint (EVar v)) ->
-  nth_error code (S (S i)) = Some (SNext vs) ->
-  vs = nil \/ vs = v :: nil ->
-  in16 a = true -> in16 b = true -> in16 s = true ->
-  forall st, s = 0 -> pc st = i -> a <= b ->
-  forall fuel, snd (run code fuel st) = OutOfFuel.
-Proof.
-  intros H1 H2 H3 H4 H5 H6 H7 st H8 H9 H10 fuel.
-  eapply steps_no_halt with (n := (1 + 2 * fuel)%nat).
-  - eapply for_step0_forever; eauto.
-  - lia.
-Qed.
